@@ -31,6 +31,12 @@
  * A body is called through vp_call_body() (c16_rt.S): callee-saved registers and %rsp are kept in static memory,
  * compared after the return (R=) and restored, so a body that destroys its own frame cannot take the runtime down.
  * vp_body_end() also receives how often each side-effecting operand of the operation was evaluated (X=).
+ *
+ * Expected-value object (C11 7.17.7.4: written only when the comparison fails).  A body names it with vp_expected();
+ * the stub of a lock cmpxchg (kind k) hands over the accumulator, so the runtime knows at the instruction whether it
+ * succeeds; every later instrumented store of that thread into the object, private or shared, is reported (W=).
+ * vp_shared() hands out one expected-value object in SHARED memory (final contents: F2=); an operation whose argument
+ * is written "prev" receives the result of the thread's previous operation (pop, then push what was popped).
  */
 #define _GNU_SOURCE
 #include <stdint.h>
@@ -61,11 +67,11 @@ struct vp_ctx { void *rsp; long pad; unsigned char fx[512]; } __attribute__((ali
 void vp_switch(struct vp_ctx *from, struct vp_ctx *to);
 void vp_tramp(void);
 
-enum { K_READ = 1, K_WRITE, K_LOCKED, K_UNLOCKED, K_CMPX_R, K_CMPX_W, K_OPAQUE, K_YIELD, K_CALL, K_RET };
-static const char kindch[] = "?rwlucdxyCR";
+enum { K_READ = 1, K_WRITE, K_LOCKED, K_UNLOCKED, K_CMPX_R, K_CMPX_W, K_OPAQUE, K_YIELD, K_CALL, K_RET, K_LOCKED_CX };
+static const char kindch[] = "?rwlucdxyCRk";   /* k: lock cmpxchg (the stub hands over the accumulator: success is known) */
 
 /* ------------------------------------------------------------------ program */
-struct op { int opidx; long arg, exp; };
+struct op { int opidx, carry; long arg, exp; };   /* carry: the argument is the result of the thread's previous operation */
 static struct {
   char id[200];
   int obj, mode, nthreads, bound;
@@ -109,6 +115,20 @@ static unsigned char vp_priv[MAXT][PRIVSZ] __attribute__((aligned(64)));   /* th
 static char guard_flag[16];          /* first modified guard byte of this run: E-before E-after O-before O-after */
 static char regs_flag[40];           /* callee-saved registers a body did not preserve */
 static char evals_flag[8];           /* first operand not evaluated exactly once: <position><count> */
+/* C11 7.17.7.4: the expected-value object is read before the operation and written ONLY when the comparison fails.
+   A body names the expected-value object of its compare-exchange with vp_expected(); from the moment a lock cmpxchg of
+   that thread on the atomic object has succeeded (accumulator == object, both known before the instruction executes)
+   every instrumented store of that thread into the expected-value object is a deviation (W=<kind><size>). */
+static unsigned char *exp_addr[MAXT];
+static long exp_size[MAXT];
+static int cas_ok[MAXT];
+static char late_flag[8];
+static unsigned long long n_cas_ok_watched;   /* successful compare-exchanges with a registered expected-value object */
+/* an expected-value object in SHARED memory (arena), handed out by vp_shared(): final contents reported as F2= */
+#define SHARED_OFF 400
+static long shared_size;
+static long final2;
+static long last_ret[MAXT];
 
 /* ------------------------------------------------------------------ explorer state */
 static int depth;                    /* scheduling decisions taken in this run */
@@ -274,6 +294,26 @@ void *vp_static(long size) {
   return vp_priv[cur] + 16;
 }
 
+/* the expected-value object of the compare-exchange(s) this body is about to perform */
+void vp_expected(void *addr, long size) {
+  in_runtime = 1;
+  if (cur < 0 || size < 1 || size > 8) die("vp_expected misuse");
+  exp_addr[cur] = addr; exp_size[cur] = size; cas_ok[cur] = 0;
+  in_runtime = 0;
+}
+
+/* an object of `size` bytes in shared memory (the arena) with guard bytes around it; the same one for every thread */
+void *vp_shared(long size) {
+  in_runtime = 1;
+  if (cur < 0 || size < 1 || size > 8 || (shared_size && shared_size != size)) die("vp_shared misuse");
+  if (!shared_size) {
+    shared_size = size;
+    add_region(gregs, &ngregs, 1, arena + SHARED_OFF - 16, 16 + size + 16, arena + SHARED_OFF, size);
+  }
+  in_runtime = 0;
+  return arena + SHARED_OFF;
+}
+
 /* last call of a body: guard bytes intact?  every side-effecting operand evaluated exactly once?  (-1: no such operand) */
 void vp_body_end(long na, long ne, long nd) {
   in_runtime = 1;
@@ -311,12 +351,26 @@ static int legit_shared(uint64_t addr, uint64_t n) {
   return 0;
 }
 
+/* vp_access() runs between two instructions of the code under test with its SSE registers live (the stubs save the
+   general registers only; this file is built with -mgeneral-regs-only): no libc call that may use them on this path */
+static void set_flag(char *dst, const char *word, int size) {
+  int n = 0;
+  while (*word) dst[n++] = *word++;
+  if (size >= 10) dst[n++] = '0' + size / 10;
+  dst[n++] = '0' + size % 10;
+  dst[n] = 0;
+}
+
 /* called from the __vp_* stubs (on the virtual thread's stack) */
-void vp_access(uint64_t addr, unsigned ks, uint64_t pc) {
+void vp_access(uint64_t addr, unsigned ks, uint64_t pc, uint64_t rax) {
   if (cur < 0) return;
   int size = ks & 0xff, kind = ks >> 8;
   uint64_t n = size ? size : 256;
   int on_object = obj_addr && addr < (uint64_t)obj_addr + obj_size && addr + n > (uint64_t)obj_addr;
+  int writes = kind == K_WRITE || kind == K_LOCKED || kind == K_LOCKED_CX || kind == K_UNLOCKED || kind == K_CMPX_W;
+  if (writes && size && cas_ok[cur] && exp_size[cur] && !late_flag[0] &&
+      addr < (uint64_t)exp_addr[cur] + exp_size[cur] && addr + size > (uint64_t)exp_addr[cur])
+    set_flag(late_flag, (char[]){ kindch[kind], 0 }, size);
   if (!on_object) {
     uint64_t lo = (uint64_t)stacks[cur], hi = lo + STACKSZ;
     if (addr >= lo && addr < hi) return;                 /* private */
@@ -325,12 +379,19 @@ void vp_access(uint64_t addr, unsigned ks, uint64_t pc) {
   }
   in_runtime = 1;
   /* reads of other memory (constants a compiler may keep in .rodata) are harmless: nothing ever writes there */
-  if ((kind == K_WRITE || kind == K_LOCKED || kind == K_UNLOCKED || kind == K_CMPX_W) && !legit_shared(addr, size ? size : 1))
+  if (writes && !legit_shared(addr, size ? size : 1))
     body_crashed("WILD");
   if (on_object && size && !unlocked_flag[0] && (kind == K_UNLOCKED || kind == K_CMPX_R))
-    snprintf(unlocked_flag, sizeof unlocked_flag, "%s%d", kind == K_UNLOCKED ? "rmw" : "cmpxchg", size);
+    set_flag(unlocked_flag, kind == K_UNLOCKED ? "rmw" : "cmpxchg", size);
   sched_point();
-  push_ev(kind, cur, size, 0, pc, addr, peek(addr, size), 0);
+  uint64_t v = peek(addr, size);
+  push_ev(kind, cur, size, 0, pc, addr, v, 0);
+  /* nothing runs between this point and the instruction: the lock cmpxchg succeeds iff accumulator == object now */
+  if (kind == K_LOCKED_CX && on_object && size && exp_size[cur] &&
+      v == (size == 8 ? rax : rax & ((1ull << (8 * size)) - 1))) {
+    cas_ok[cur] = 1;
+    n_cas_ok_watched++;
+  }
   in_runtime = 0;
 }
 
@@ -380,9 +441,12 @@ void vp_thread_main(void) {
     if (i > 0) { sched_point(); push_ev(K_YIELD, t, 0, i, 0, 0, 0, 0); }
     if (!parent) push_ev(K_CALL, t, 0, i, 0, 0, 0, 0);
     nregs[t] = 0;
+    exp_size[t] = 0; cas_ok[t] = 0;
     in_runtime = 0;
-    long r = vp_call_body(vp_ops[o->opidx].fn, obj_base, o->arg, &e);
+    long r = vp_call_body(vp_ops[o->opidx].fn, obj_base, o->carry ? last_ret[t] : o->arg, &e);
     in_runtime = 1;
+    last_ret[t] = r;
+    exp_size[t] = 0; cas_ok[t] = 0;
     if (cur != t) die("body returned on the wrong thread");
     if (vp_save[t][7] && !regs_flag[0]) {
       static const char *rn[] = { "rbx", "rbp", "r12", "r13", "r14", "r15", "rsp" };
@@ -414,7 +478,9 @@ static void run_once(void) {
   memset(started, 0, sizeof started); memset(finished, 0, sizeof finished);
   memset(waiting_join, 0, sizeof waiting_join);
   published = 0; aborted = 0; depth = 0; ntrace = 0; pre[0] = 0; unlocked_flag[0] = 0;
-  final_val = 0; guard_flag[0] = regs_flag[0] = evals_flag[0] = 0;
+  final_val = 0; guard_flag[0] = regs_flag[0] = evals_flag[0] = late_flag[0] = 0;
+  memset(exp_size, 0, sizeof exp_size); memset(cas_ok, 0, sizeof cas_ok); memset(last_ret, 0, sizeof last_ret);
+  shared_size = 0; final2 = 0;
   memset(nregs, 0, sizeof nregs); ngregs = 0;
   memset(arena, FILL, sizeof arena);
   if (prog.mode == 0) {
@@ -438,6 +504,7 @@ static void run_once(void) {
   vp_switch(&mainctx, &ctx[c]);
   cur = -1;
   if (aborted) return;
+  if (shared_size) memcpy(&final2, arena + SHARED_OFF, shared_size);
   if (prog.mode == 0) {
     if (vp_objs[prog.obj].has_fin) final_val = info(arena, 4);
     else { final_val = 0; memcpy(&final_val, obj_addr, obj_size); }
@@ -453,8 +520,10 @@ static int history_text(char *buf, int cap) {
     if (e->kind == K_CALL) n += snprintf(buf + n, cap - n, "c%d.%d ", e->thread, e->opno);
     else if (e->kind == K_RET) n += snprintf(buf + n, cap - n, "r%d.%d=%ld:%ld ", e->thread, e->opno, (long)e->val, (long)e->val2);
   }
-  n += snprintf(buf + n, cap - n, "F=%ld G=%s R=%s X=%s U=%s", final_val, guard_flag[0] ? guard_flag : "-",
-                regs_flag[0] ? regs_flag : "-", evals_flag[0] ? evals_flag : "-", unlocked_flag[0] ? unlocked_flag : "-");
+  n += snprintf(buf + n, cap - n, "F=%ld G=%s R=%s X=%s U=%s W=%s", final_val, guard_flag[0] ? guard_flag : "-",
+                regs_flag[0] ? regs_flag : "-", evals_flag[0] ? evals_flag : "-", unlocked_flag[0] ? unlocked_flag : "-",
+                late_flag[0] ? late_flag : "-");
+  if (shared_size) n += snprintf(buf + n, cap - n, " F2=%ld", final2);
   return n;
 }
 
@@ -502,15 +571,15 @@ static void print_trace(void) {
 
 /* ------------------------------------------------------------------ DFS */
 #define MAXPRE 64
-static unsigned long long ex_schedules, ex_by_pre[MAXPRE + 1], ex_livelocks, ex_validated, ex_dec0, ex_runs0, ex_guard0;
+static unsigned long long ex_schedules, ex_by_pre[MAXPRE + 1], ex_livelocks, ex_validated, ex_dec0, ex_runs0, ex_guard0, ex_casw0;
 static int ex_maxdepth;
 static int mode_replay;              /* 0 exploring, 1 replay with trace (S), 2 replay twice (V) */
 static const char *replay_text;
 
 static void emit_results(void) {
-  printf("PROG %s schedules=%llu decisions=%llu runs=%llu validated=%llu maxdepth=%d livelocks=%llu histories=%d guardchecks=%llu by_pre=",
+  printf("PROG %s schedules=%llu decisions=%llu runs=%llu validated=%llu maxdepth=%d livelocks=%llu histories=%d guardchecks=%llu caswatched=%llu by_pre=",
          prog.id, ex_schedules, n_decisions - ex_dec0, n_runs - ex_runs0, ex_validated, ex_maxdepth, ex_livelocks, nhist,
-         n_guard_checks - ex_guard0);
+         n_guard_checks - ex_guard0, n_cas_ok_watched - ex_casw0);
   for (int i = 0; i <= MAXPRE; i++) if (ex_by_pre[i]) printf("%d:%llu,", i, ex_by_pre[i]);
   printf("\n");
   for (int b = 0; b < HBUCKETS; b++) {
@@ -586,7 +655,7 @@ static void install_handlers(void) {
 static void explore(void) {
   long bound = prog.bound < 0 ? (1L << 30) : prog.bound;
   char text[4096];
-  ex_schedules = ex_livelocks = ex_validated = 0; ex_dec0 = n_decisions; ex_runs0 = n_runs; ex_guard0 = n_guard_checks; ex_maxdepth = 0;
+  ex_schedules = ex_livelocks = ex_validated = 0; ex_dec0 = n_decisions; ex_runs0 = n_runs; ex_guard0 = n_guard_checks; ex_casw0 = n_cas_ok_watched; ex_maxdepth = 0;
   memset(ex_by_pre, 0, sizeof ex_by_pre);
   mode_replay = 0;
   replay_len = 0; strict_replay = 0;
@@ -684,7 +753,10 @@ int main(int argc, char **argv) {
       if (prog.nops[t] < 1 || prog.nops[t] > MAXOPS) die("bad op count");
       for (int i = 0; i < prog.nops[t]; i++) {
         struct op *o = &prog.op[t][i];
-        o->opidx = atoi(NEXT()); o->arg = strtol(NEXT(), 0, 0); o->exp = strtol(NEXT(), 0, 0);
+        o->opidx = atoi(NEXT());
+        NEXT();
+        if (!strcmp(tok, "prev")) { o->carry = 1; o->arg = 0; } else o->arg = strtol(tok, 0, 0);
+        o->exp = strtol(NEXT(), 0, 0);
         if (o->opidx < 0 || o->opidx >= vp_nops) die("bad op index");
       }
     }
